@@ -390,7 +390,7 @@ GROUPS["C09"] = [_MORE[1]]
 
 # ---------------------------------------------------------------------------------------------------------- composition pieces
 # The monolithic DFCC proof of fill_sinks_sloped (step and init replaced by their contracts, loop contract on the while) does
-# not finish within 15 min here; it stays in the thorough tier.  The quick tier decides the same composition in pieces:
+# not finish within an hour here and is NOT registered.  The registered groups decide the same composition in pieces:
 #   {inv} pflood_step {inv}            groups pflood.step.*   (precondition = loop guard + invariant)
 #   {entry} pflood_init {inv}          group  pflood.init
 #   prologue establishes {entry}       group  pflood.prologue (typestate abstraction of the whole-container facts)
@@ -485,16 +485,19 @@ _COMP = [
           clause="fill_sinks_sloped prologue (typestate abstraction): queues and `closed` are fresh locals of every call, init_pflood runs once "
                  "before the loop, the loop is `while (queues not empty) step` (C09: no state survives a call)"),
 ]
-for _g in _MORE:
-    if _g.name.startswith("pflood.fill"):
-        _g.tier = "thorough"
-        _g.timeout = 3600
+# the monolithic whole-function group pflood.fill.nb2 does not finish within an hour (measured twice): not registered, nothing is claimed from it;
+# the while-rule premises below decide the same composition in pieces
+EXPERIMENTAL = [_g for _g in _MORE if _g.name.startswith("pflood.fill")]
+_MORE = [_g for _g in _MORE if not _g.name.startswith("pflood.fill")]
+GROUPS["C01"] = [_g for _g in GROUPS["C01"] if not _g.name.startswith("pflood.fill")]
+GROUPS["C02"] = [_g for _g in GROUPS["C02"] if not _g.name.startswith("pflood.fill")]
+GROUPS["C09"] = [_g for _g in GROUPS["C09"] if not _g.name.startswith("pflood.fill")]
 GROUPS["C01"] = GROUPS["C01"] + _COMP
 GROUPS["C02"] = GROUPS["C02"] + _COMP
 GROUPS["C09"] = GROUPS["C09"] + [_COMP[1]]
 PROPS["C01"]["unmechanised"].append(
     "while rule: {inv && guard} step {inv}, {entry} init {inv}, prologue => entry, inv && !guard => post  ==>  the postcondition of "
-    "fill_sinks_sloped (each premise is a discharged group; the monolithic DFCC proof is in the thorough tier)")
+    "fill_sinks_sloped (each premise is a discharged group; the monolithic DFCC proof does not finish within an hour and is not registered)")
 
 
 # ------------------------------------------------------------------------------------------------------------------------------------------
